@@ -161,7 +161,7 @@ def check(prog: Program, res: Result, tier: str) -> None:
     res.explanation = __doc__.split("\n\n", 1)[1]
     res.assumptions = ["row-helper contracts are trusted (C17 does not prove them)", "operands well-formed; tensor[subs] returns one value per row",
                        "the dense operators (tenfun) are the meaning"]
-    res.floors = {"IX-dom": 20, "IX-seq": 8, "IX-pair": 8, "SC": 6, "CONV": 4, "CNTPRED": 3, "ZERO": 1, "FILL": 3, "IX-cnt": 12}
+    res.floors = {"IX-dom": 20, "IX-seq": 8, "IX-pair": 8, "SC": 6, "CONV": 4, "CNTPRED": 3, "ZERO": 1, "FILL": 3, "IX-cnt": 12, "IX-agg": 1}
     names = {f"sptensor.sptensor.{o}" for o in OPS}
     for n in names:
         prog.func(n)
@@ -169,6 +169,9 @@ def check(prog: Program, res: Result, tier: str) -> None:
     I.ix_rules(prog, res, sel)
     conv_table(prog, res)
     cnt_pred(prog, res)
+    # the count predicates of the logical operators are reducers of the aggregating constructor: they must run for every group
+    from .C06 import agg_every_path
+    agg_every_path(prog, res)
     zero_filter(prog, res)
     fill_table(prog, res)
     E.cnt_ctor(prog, res, sel)
